@@ -373,6 +373,29 @@ def os_effects(text):
     return out
 
 
+WIPE_ORDER_NAMES = ('zeroize', 'new_locked', 'new_readonly_locked', 'gen_locked', 'gen_readonly_locked', 'from_slice_into_locked',
+                    'from_slice_into_readonly_locked', 'mlock', 'munlock', 'mprotect_readonly', 'mprotect_readwrite',
+                    'mprotect_noaccess', 'copy_from_slice', 'resize')
+
+
+def wipe_order(text):
+    """Order frame of the functions that must wipe on every path (C19): the SEQUENCE of wipe / lock / protect / copy calls and
+    of `?` early-return points in the function text. A reordering that moves an early return in front of a wipe (the secret
+    then survives on the error path) changes this sequence; no postcondition can see a stack temporary after the return."""
+    t = re.sub(r'//[^\n]*', '', text)
+    t = re.sub(r'/\*.*?\*/', '', t, flags=re.S)
+    t = re.sub(r'"(?:[^"\\]|\\.)*"', '""', t)
+    seq = []
+    for m in re.finditer(r'\?|(?<![A-Za-z0-9_])([A-Za-z_][A-Za-z0-9_]*)\s*(?:::<[^>]*>)?\s*\(', t):
+        if m.group(0) == '?':
+            seq.append('?')
+        elif m.group(1) not in ('if', 'while', 'match', 'for', 'fn', 'Ok', 'Err', 'Some', 'Self'):
+            # every call: the position of the calls that CREATE the secret relative to the early returns matters as much as
+            # the position of the wipes
+            seq.append(m.group(1))
+    return seq
+
+
 def unit_orig_text(u, repo=None):
     a, z = u['orig_lines']
     with open(os.path.join(repo or REPO, u['file'])) as f:
